@@ -156,7 +156,15 @@ class World:
             if last == 'isinf' and len(args) == 1:
                 return mx.Sym('isinf(%s)' % mx.show(args[0])[:40], truth=world.shifted)
             return NotImplemented
-        it = W(self.prog, self.m, call_hook=hook, symbolic_loops=True)
+        # helper functions that the confirmed tree does not have are stepped into (a refactoring may move the quadratures there)
+        known = None
+        try:
+            from sa import alpha as _alpha
+            known = _alpha.load_table().get('__params__', {}).get(self.m.rel)
+            known = set(known) if known is not None else None
+        except Exception:
+            known = None
+        it = W(self.prog, self.m, call_hook=hook, symbolic_loops=True, known_functions=known)
         it.array_rows = True
         args = {}
         a = self.fn.args
